@@ -27,6 +27,7 @@ def run(ctx):
     queryvar.qv1(ctx)
     queryvar.qv2(ctx)
     queryvar.qv3(ctx)
+    queryvar.qv4(ctx)
     queryvar.pair_quoting(ctx, roles(ctx.model))
     immut.im3(ctx)
     immut.im6(ctx)
